@@ -81,6 +81,7 @@ type lexer struct {
 	pos      int
 	width    int
 	starStar bool // a "**" has been seen: only a verb may follow
+	inVar    bool // inside the pattern of a variable: no further variable may start
 }
 
 func (l *lexer) tokens() tokens { return l.toks[:l.len] }
@@ -229,7 +230,10 @@ func lexVariable(l *lexer) error {
 			return err
 		}
 
-		if err := lexSegments(l); err != nil {
+		l.inVar = true
+		err := lexSegments(l)
+		l.inVar = false
+		if err != nil {
 			return err
 		}
 		r = l.next()
@@ -256,6 +260,9 @@ func lexSegment(l *lexer) error {
 		l.backup()
 		return l.emit(tokenStar)
 	case r == '{':
+		if l.inVar {
+			return l.errUnexpected() // variables do not nest
+		}
 		l.backup()
 		return lexVariable(l)
 	default:
